@@ -1,4 +1,4 @@
-// C12 wrapper: the real CommandLineArguments parser run on harness-built argument vectors.
+// C12 wrapper: the real CommandLineArguments parser (whole, and handler by handler) run on harness-built argument vectors.
 // The parser object is a stack object (so its destructor, which frees the filter lists, runs too); the
 // resulting configuration is copied into plain fields that the harness reads back one by one.
 #define private public
@@ -106,26 +106,6 @@ int h_param_field(int ac, const char* a1, const char* a2, const char* name)
 }
 unsigned long h_field_len(void) { return cfg.fieldLen; }
 int h_field_char(int k) { return (int)(unsigned char)cfg.field[k]; }
-// "TEST(group, name)" slicing
-void h_test_form(const char* a1, int ignore)
-{
-    const char* av[2] = { "prog", a1 };
-    CommandLineArguments args(2, av);
-    int i = 1;
-    args.addTestToRunBasedOnVerboseOutput(2, av, i, ignore ? "IGNORE_TEST(" : "TEST(");
-    cfg.index = i;
-    copyConfig(args, 0, 0);
-}
-// group.name splitting
-int h_group_dot_name(const char* a1, int strict, int exclude)
-{
-    const char* av[2] = { "prog", a1 };
-    CommandLineArguments args(2, av);
-    int i = 1;
-    cfg.ok = args.addGroupDotNameFilter(2, av, i, "-t", strict != 0, exclude != 0);
-    copyConfig(args, 0, 0);
-    return cfg.ok;
-}
 // TestFilter::match on its own
 int h_filter_match(const char* filter, int strict, int invert, const char* name)
 {
